@@ -411,3 +411,36 @@ func UseOptional(m Metastore) string {
 	}
 	return ""
 }
+
+// ---- pointer looked up in a map ----
+
+type attr struct{ M map[string]int }
+
+func LookupOk(item map[string]*attr) int {
+	a := item["rec"]
+	if a == nil {
+		return 0
+	}
+	return len(a.M)
+}
+
+func LookupBad(item map[string]*attr) int { return len(item["rec"].M) }
+
+// ---- request hoisted out of a loop that starts goroutines ----
+
+type req struct{ Key string }
+
+func GoLoopOk(keys []string, send func(*req)) {
+	for _, k := range keys {
+		r := &req{Key: k}
+		go func() { send(r) }()
+	}
+}
+
+func GoLoopBad(keys []string, send func(*req)) {
+	r := &req{}
+	for _, k := range keys {
+		r.Key = k
+		go func() { send(r) }()
+	}
+}
